@@ -84,7 +84,34 @@ func (k calComp) String() string {
 // msParamOfTime: the int64 parameter p such that t is time.Unix(p/1000, 0) or time.UnixMilli(p); "" when t is anything else.
 func msParamOfTime(t ssa.Value) (string, bool) {
 	cl, ok := eng.Unwrap(t).(*ssa.Call)
-	if !ok || cl.Common().StaticCallee() == nil || cl.Common().StaticCallee().Pkg == nil || cl.Common().StaticCallee().Pkg.Pkg.Path() != "time" {
+	if !ok || cl.Common().StaticCallee() == nil {
+		return "", false
+	}
+	// a small helper of the package that does the conversion (timeOfMillis(x) = time.Unix(x/1000, 0)): what the helper does with
+	// its parameter, applied to the argument
+	if h := eng.TransparentCallee(cl); h != nil && len(h.Params) == 1 && len(cl.Common().Args) == 1 {
+		var inner string
+		okAll, n := true, 0
+		for _, b := range h.Blocks {
+			for _, in := range b.Instrs {
+				if r, isR := in.(*ssa.Return); isR && len(r.Results) == 1 {
+					n++
+					pn, ok2 := msParamOfTime(r.Results[0])
+					if !ok2 || pn != h.Params[0].Name() {
+						okAll = false
+					}
+					inner = pn
+				}
+			}
+		}
+		if okAll && n > 0 && inner != "" {
+			if pr, isP := eng.Unwrap(cl.Common().Args[0]).(*ssa.Parameter); isP {
+				return pr.Name(), true
+			}
+		}
+		return "", false
+	}
+	if cl.Common().StaticCallee().Pkg == nil || cl.Common().StaticCallee().Pkg.Pkg.Path() != "time" {
 		return "", false
 	}
 	a := cl.Common().Args
